@@ -212,3 +212,83 @@ Fixpoint events_layers (ls : list layer) : list N :=
 Definition events (s : sdb) : list N := orig_ev s ++ events_layers (top s :: below s).
 
 Definition is_commit (o : op) : bool := match o with Commit _ => true | _ => false end.
+
+(* ------------------------------------------------------------------ call trees *)
+
+(* How the EVM interpreter drives the StateDB for a whole transaction (go-ethereum core/vm/evm.go Call / Create):
+   entering a call frame takes a Snapshot; inside it run plain operations (storage, balance, nonce and code writes,
+   the writes of any module made by a stateful precompile through GetCurrentContext(), events, logs, refund, access
+   list, transient storage, self-destruct marks) and further frames; a frame that fails - REVERT, INVALID, out of
+   gas, a failing precompile - ends with RevertToSnapshot(id of its own Snapshot); a frame that completes just returns. *)
+Inductive citem :=
+| CI (o : op)                          (* a plain operation *)
+| CF (ok : bool) (body : list citem).  (* a call frame and whether it completes *)
+
+Definition is_plain (o : op) : bool :=
+  match o with Snapshot | RevertTo _ | Commit _ => false | _ => true end.
+
+(* the operation sequence of a tree entered with [d] = len(snapshots), and len(snapshots) afterwards: Snapshot() returns
+   len-1; a revert to id leaves id+2 records (the reverted-to record is kept), completed frames keep theirs *)
+Fixpoint compile (d : nat) (t : citem) : list op * nat :=
+  match t with
+  | CI o => ([o], d)
+  | CF ok body =>
+      let '(ops, d') :=
+        (fix go (d : nat) (l : list citem) : list op * nat :=
+           match l with
+           | [] => ([], d)
+           | x :: r => let '(o1, d1) := compile d x in let '(o2, d2) := go d1 r in (o1 ++ o2, d2)
+           end) (S d) body in
+      if ok then (Snapshot :: ops, d') else (Snapshot :: ops ++ [RevertTo (Z.of_nat d - 1)], S d)
+  end.
+
+Definition compile_list : nat -> list citem -> list op * nat :=
+  fix go (d : nat) (l : list citem) : list op * nat :=
+    match l with
+    | [] => ([], d)
+    | x :: r => let '(o1, d1) := compile d x in let '(o2, d2) := go d1 r in (o1 ++ o2, d2)
+    end.
+
+(* the plain operations of frames that completed and whose enclosing frames all completed, in program order *)
+Fixpoint kept (t : citem) : list op :=
+  match t with
+  | CI o => [o]
+  | CF ok body =>
+      if ok then (fix go (l : list citem) : list op := match l with [] => [] | x :: r => kept x ++ go r end) body
+      else []
+  end.
+
+Definition kept_list : list citem -> list op :=
+  fix go (l : list citem) : list op := match l with [] => [] | x :: r => kept x ++ go r end.
+
+Fixpoint plain_tree (t : citem) : bool :=
+  match t with
+  | CI o => is_plain o
+  | CF _ body => (fix go (l : list citem) : bool := match l with [] => true | x :: r => plain_tree x && go r end) body
+  end.
+
+Definition plain_list : list citem -> bool :=
+  fix go (l : list citem) : bool := match l with [] => true | x :: r => plain_tree x && go r end.
+
+(* side state and events produced by a list of plain operations (a panicking one changes nothing) *)
+Definition side_apply (c : side) (o : op) : side := match side_step c o with Some c' => c' | None => c end.
+Definition side_run (ops : list op) (c : side) : side := fold_left side_apply ops c.
+Fixpoint emitted (ops : list op) : list N :=
+  match ops with
+  | [] => []
+  | EmitEvent e :: r => e :: emitted r
+  | _ :: r => emitted r
+  end.
+
+(* the tree with every failing frame cut out, with everything below it: the "survivors only" twin transaction that the
+   `statedb` driver executes beside every generated call tree *)
+Fixpoint prune (t : citem) : list citem :=
+  match t with
+  | CI o => [CI o]
+  | CF ok body =>
+      if ok then [CF true ((fix go (l : list citem) : list citem := match l with [] => [] | x :: r => prune x ++ go r end) body)]
+      else []
+  end.
+
+Definition prune_list : list citem -> list citem :=
+  fix go (l : list citem) : list citem := match l with [] => [] | x :: r => prune x ++ go r end.
